@@ -364,7 +364,11 @@ func exploreMode(t *testing.T, spec *Spec, res *WorkerResult) {
 			}
 			// New violation: minimise, write the replay file, stop this worker.
 			v := o.Violation
-			minPlan, minOut, n := minimise(t, spec, plan, o)
+			minPlan, minOut, n := plan, o, 0
+			if !Stalled {
+				// (after a run abandoned by the real-time guard every candidate would cost that long again)
+				minPlan, minOut, n = minimise(t, spec, plan, o)
+			}
 			rep := &Replay{Property: spec.Property, World: spec.World, Seed: seed, RunSeed: runSeed,
 				Violation: minOut.Violation, Minimised: n > 0, ShrinkRun: n, Plan: minPlan, Log: minOut.Log,
 				Tier: tier, PrefixSeeds: history[:len(history)-1], Unminimised: plan}
